@@ -2156,6 +2156,35 @@ def best_rules(run, rule, ast):
             run.violation(rule, "compiler::best|step|%s" % ",".join(k for k in exp if table.get(k) != exp[k]), "the elimination step of best() deviates: %s" % "; ".join(diffs), (f["file"], lp["l"]))
         elif not push_ok:
             run.violation(rule, "compiler::best|append", "a candidate that survived the scan is not appended to the best set exactly when it was not dropped", (f["file"], ob["l"]))
+        # the scan is a fold of a relation that is NOT transitive when the specificity table lets a position with unrelated classes
+        # pass (a > b > c > a is realisable with three parameters): what survives then depends on the order of the candidates, i.e. on
+        # the order of registration. A single survivor must therefore be confirmed against every candidate (it is THE most specific
+        # definition only if it beats all the others); otherwise the set is ambiguous.
+        msf = [g for g in by_name(ast, "is_more_specific") if g["name"].rsplit("::", 1)[0] == f["name"].rsplit("::", 1)[0]]
+        neutral = None
+        if msf:
+            try:
+                neutral = dtab.order_table(msf[0], {g["name"]: g for g in ast.funcs if g.get("body") and re.search(r"compiler<.*>::\w+$", g["name"])})["per"].get("UNRELATED") == "none"
+            except dtab.Unclassifiable:
+                neutral = None
+        if neutral:
+            post = []
+            for st in body.get("c") or []:
+                if st.get("k") != "IfStmt" or st["l"] < outer[0]["l"]:
+                    continue
+                c = astq.canon(st["cond"])
+                size1 = any(x.get("k") == "CXXMemberCallExpr" and (x.get("callee") or "").endswith("::size") and _refs(x, res) for x in astq.walk(st["cond"])) and any(
+                    x.get("k") == "IntegerLiteral" and x.get("v") == 1 for x in astq.walk(st["cond"]))
+                scans = [lp for lp in astq.walk(st.get("then")) if lp.get("k") in ("CXXForRangeStmt", "ForStmt") and any(
+                    x.get("k") == "CallExpr" and (x.get("callee") or "").endswith("::is_more_specific") for x in astq.walk(lp))]
+                grows = any(x.get("k") == "CXXMemberCallExpr" and (x.get("callee") or "").endswith("::push_back") and _refs(x["c"][0], res) for x in astq.walk(st.get("then")))
+                if size1 and scans and grows:
+                    post.append(st)
+            okp = bool(post)
+            run.instance(rule, "%s: a single survivor of the scan is confirmed against every candidate (the relation is not transitive across unrelated positions)" % short(f), (f["file"], f["line"]), ok=okp)
+            if not okp:
+                run.violation(rule, "compiler::best|fold-order", "is_more_specific lets a position with unrelated classes pass, so the relation admits cycles (a > b > c > a with three parameters); best() folds it in the order of the candidates "
+                              "and returns whatever survives: which definition a call (or next) runs then depends on the order of registration, where no definition is more specific than all the others", (f["file"], f["line"]))
 
 
 # ---------------------------------------------------------------------------
